@@ -274,28 +274,32 @@ def e13_counter_accounting(F, R, M, rule='E13'):
 def e14_release_form(F, R, M, rule='E14'):
     """The form released is the form submitted: the release path takes the indirect-table branch (the per-head table slot is
     taken / read) only under a test of the *head descriptor's own* flags in the shadow table - not under a queue-wide setting,
-    because a queue that negotiated indirect descriptors still submits single-buffer chains directly."""
+    because a queue that negotiated indirect descriptors still submits single-buffer chains directly.  Decided on the queue's
+    entry points with its private methods inlined, so the test may sit in the caller of an extracted release helper."""
     tf = M.qf.get('indirect_lists')
     sh = M.qf.get('shadow')
     if not tf or not sh or not any(f_['name'] == tf for f_ in F.adts[M.queue_adt]['variants'][0]['fields']):
         return      # configuration without indirect tables
-    n = 0
-    for b in sorted(F.bodies.values(), key=lambda x: x['id']):
-        if b.get('impl_adt') != M.queue_adt or not F.handwritten(b) or b['kind'] != 'AssocFn':
-            continue
-        sg0 = supergraph(F, b['id'], tag='flat', max_depth=0)
+    seen = {}
+    roots = [b for b in F.bodies.values() if b.get('impl_adt') == M.queue_adt and F.handwritten(b) and b['kind'] == 'AssocFn' and b.get('pub') and 'impl_trait' not in b]
+    for b in sorted(roots, key=lambda x: x['id']):
+        sg0 = supergraph(F, b['id'], opaque=lambda t, bb: not (bb.get('impl_adt') == M.queue_adt and not bb.get('pub') and F.handwritten(bb)), tag='e14')
         S0 = sg0.sym
-        onf = lambda t, f: any(x[0] == 'loc' and any(pp[0] == 'f' and pp[1] == f and len(pp) > 2 and pp[2] == M.queue_adt for pp in x[2]) for x in subterms(t))
+        onf = lambda t, f: any(x[0] == 'loc' and any(pp[0] == 'f' and pp[1] == f and len(pp) > 2 and pp[2] == M.queue_adt for pp in x[2]) for x in deep_subterms(S0, t))
         for c in sg0.calls(lambda d: d.get('fn', '').rsplit('::', 1)[-1] in ('take', 'replace') and d.get('fn', '').startswith('core::')):
             if not onf(S0.operand(c.id, c.d['args'][0]), tf):
                 continue
-            n += 1
             gs = [S0.operand(swid, sg0.nodes[swid].d['discr']) for swid, vals, succ in sg0.guards_of(c.id)]
             by_flag = any(onf(g, sh) and 'flags' in fmt(g) for g in gs)
-            R.check(by_flag, rule, '%s:release-form-by-descriptor-flag' % b['id'], site(sg0, c), 'the table slot is released under a test of the head descriptor\'s flags',
-                    '%s releases the indirect table of a chain without testing the head descriptor\'s own flags (guards: %s): a directly submitted '
-                    'chain on a queue with indirect descriptors enabled is released as if it had a table' % (b['name'], [fmt(g)[:50] for g in gs][:3]))
-    R.count('table_releases', n)
+            k = site(sg0, c)
+            ok0, gs0 = seen.get(k, (True, []))
+            seen[k] = (ok0 and by_flag, gs0 or gs)
+    for k, (ok, gs) in sorted(seen.items()):
+        fnname = k.split('(')[-1].rstrip(')') if '(' in k else k
+        R.check(ok, rule, '%s:release-form-by-descriptor-flag' % fnname, k, 'the table slot is released under a test of the head descriptor\'s flags',
+                'the indirect table of a chain is released without a test of the head descriptor\'s own flags (guards: %s): a directly submitted '
+                'chain on a queue with indirect descriptors enabled is released as if it had a table' % [fmt(g)[:50] for g in gs][:3])
+    R.count('table_releases', len(seen))
 
 
 def in_use_counter(F, M):
